@@ -92,11 +92,10 @@ package hclwrite
 //@ assigns mapof(ns)
 //@ ensures !has(ns, n) && (forall k ref :: k != n ==> has(ns, k) == old(has(ns, k)))
 
-// Assumed (the range-and-delete loop needs a visited-set ghost the engine does not model).
 // verif:func (nodeSet).Clear
-//@ trusted
 //@ assigns mapof(ns)
 //@ ensures forall k ref :: !has(ns, k)
+//@ loop 1 invariant forall k ref :: visited(k) ==> !has(ns, k)
 
 // ---- Body ----
 
